@@ -15,11 +15,48 @@ skipped, the state it leaves behind is covered too). The correspondence check fo
 `clonePage` to `Importer::{clone_plainref, clone_ref, clone_rcref}` and `PageBuilder::clone_page` of the
 current tree (same request answered by both, compared up to renaming of the new object numbers).
 
-What the theorems do not carry: the payload of an object is abstract (equality of dictionaries and stream
-bytes after the typed re-serialisation is the oracle's comparison on the real library), and resource
-categories other than ExtGState / Font / XObject / Properties are not copied by the code (D40, open
-for ColorSpace, Pattern, Shading): the full-strength
-statement `C20_full` is kept below with its counter-example.
+What the theorems do not carry — read this before reading more into a theorem than it says:
+
+* **Payload equality** ("a resource whose content (dictionaries, stream data) equals the original's"): the payload of
+  an object is an abstract number here. Equality of dictionaries, strings and stream bytes after the typed
+  re-serialisation, decryption included, is the oracle's comparison on the real library against the generator's
+  plaintext (harness/src/c20.rs), and the correspondence carries a payload digest. No theorem.
+* **"The same operation sequence"** and **"the new document saved and reloaded"**: no model statement at all. The
+  model keeps the operations of a page verbatim by construction (`OpM` values are never rewritten; only the
+  resources they name are looked at), `PdfBuilder::build`, `Storage::save`, `serialize_ops` and the reload are not
+  modelled. Both clauses are decided by the oracle only (import + build + reload, operations compared with the
+  source's and with the generator's plaintext; the serialiser itself is C08's, saving is C09's / C10's).
+* **"Importing never panics"**: `import_never_panics`, `clone_never_panics`, `tree_import_never_panics` hold *by
+  construction of the model* — after the repairs no branch of `cloneRef` / `cloneOp` / `clonePage` produces `.panic`,
+  the proofs only show that `.panic` cannot appear from nowhere. What carries the content is (a) `Old.cloneRef`,
+  which has the panic branch of the code before the repair (`d46_old_code_panics`), (b) the correspondence (the
+  implementation's outcome `panic` would disagree with the model's), and (c) the oracle on the real library, where
+  the panic sites actually were: `rcrefs.get(&new_ref).unwrap()` in `clone_rcref` (D46), `assert!(params.is_none())`
+  in `Stream::to_pdf_stream` (D47), `serialize_ops(..).unwrap()` in `Content::from_ops` under
+  `CatalogBuilder::build` (D49), and the stack overflow of the unguarded recursion (D41, an abort rather than a
+  panic) — all found by, and now regression witnesses of, the oracle; the last three lie outside the model.
+* **Sources with a reference cycle.** Every theorem whose premise is `(clonePage …).1 = .ok out` (or
+  `clonePageT`) says nothing about a page from which a reference cycle is reachable: the repaired importer answers
+  `.err` there (`cyclic_page_is_rejected` below), so the premise is false. That is the library's behaviour after the
+  D41 repair — a cyclic page is *refused*, not imported — and it is within the property as stated: its clauses are
+  conditioned on "when importing it into a new document succeeds", and the unconditional clause ("importing never
+  panics") is what the cycle guard establishes (`import_terminates`: no `.oof` on any finite source;
+  `d41_old_code_diverges`: the old code did not terminate). The property's quantifier lists cyclic sources because
+  of that unconditional clause. The state-level theorems (`clone_closed`, `clone_once`, `clone_iso`, `memo_stable`,
+  `copies_get_fresh_numbers`) have no such premise: they hold after refused pages too, and
+  `acyclic_page_beside_a_cycle_imports` shows a page of a source that has a cycle elsewhere importing normally,
+  before and after a refused page. That cyclic pages cannot be imported at all is recorded as a limitation in
+  notes/C20.md, not as a violation.
+* **Boxes and entry points.** `from_page_attributes` and the box fields of `tree_page_attributes` read the
+  definitions of `fromPageT` / `clonePageT` back (the model *is* "take the nearest entry"); their content is that
+  the statement is in terms of `nearest`, which `nearest_is_first` characterises independently (first entry on the
+  way up — see the corollaries `tree_page_boxes_first_on_the_way_up`, `from_page_boxes_first_on_the_way_up`), and
+  that the correspondence streams `c20.page*` / `c20.frompage*` (6⁴ placements exhaustively) tie those definitions
+  to `Page::media_box` / `crop_box` / `resources` and the two builders. The resource part of
+  `tree_page_attributes` (`PageOK`) is a real consequence of the invariant.
+* **Resource categories** other than ExtGState / Font / XObject / Properties are not copied by the code (D40, open
+  for ColorSpace, Pattern, Shading): `C20_full` is kept below with its counter-example; inherited /Rotate is not
+  read by the library: `C20_rotate_full` with its counter-example.
 -/
 
 namespace Import
@@ -70,7 +107,9 @@ theorem memo_stable (src : Src) (f n : Nat) (pages more : List PageM) :
   rw [e]
   exact ⟨h.2.map_ext, h.2.objs_ext⟩
 
-/-- **C20, resources** (`pruned_resources_cover_used`, categories ExtGState / Font / XObject / Properties). When a page
+/-- **C20, resources** (`pruned_resources_cover_used`, categories ExtGState / Font / XObject / Properties).
+    (Premise `= .ok out`: silent about pages from which a reference cycle or a missing object is reachable — those
+    are refused, see the header.) When a page
     is imported successfully after any history: for every operation naming a resource of a category
     `deep_clone_op` looks at, if the page's resources have an entry of that name, the new page's resources
     have an entry of the same name that is a copy of it (same payload, references mapped); the new table
@@ -129,11 +168,16 @@ theorem copies_get_fresh_numbers (src : Src) (f n : Nat) (pages : List PageM) :
   · simp [St.init] at hb
   · exact hb
 
-/-- **C20, "importing never panics"**: no input makes the model of the (repaired) importer panic. -/
+/-- **C20, "importing never panics"**, model level — *true by construction*: the model of the repaired importer has
+    no branch that produces `.panic` (`cloneRef`, `cloneOp`, `clonePage` only pass one on), so this says no more
+    than that. The clause is carried by the correspondence (outcome `panic` of the implementation would disagree),
+    by `d46_old_code_panics` for the code before the repair, and by the oracle, which is where the real panic sites
+    were found: `clone_rcref`'s `unwrap` (D46), `to_pdf_stream`'s `assert!` (D47), `Content::from_ops`' `unwrap`
+    (D49) — the last two are not in the model at all. -/
 theorem import_never_panics (src : Src) (f : Nat) (p : PageM) (st : St) : (clonePage f src p st).1 ≠ .panic :=
   clonePage_ne_panic src f p st
 
-/-- … nor a single clone request. -/
+/-- … nor a single clone request (by construction of `cloneRef`, as above). -/
 theorem clone_never_panics (src : Src) (f : Nat) (e : Edge) (st : St) : (cloneRef f src e st).1 ≠ .panic :=
   cloneRef_ne_panic src f e st
 
@@ -195,7 +239,11 @@ theorem tree_pages_closed_once_iso (src : Src) (f n : Nat) (pages : List PageT) 
   have h := (clonePagesT_spec src f pages _ (Inv.init src n)).1
   exact ⟨h.closed, h.once, h.iso⟩
 
-/-- **C20, boxes and resources of a page in the tree** (`clone_page`). When the import of a page succeeds after
+/-- **C20, boxes and resources of a page in the tree** (`clone_page`). The *box* fields (`media`, `crop`, `trim`,
+    `rotate`) restate the definition of `clonePageT` — their content is the use of `nearest` (characterised by
+    `nearest_is_first`, composed in `tree_page_boxes_first_on_the_way_up`) and the correspondence that ties
+    `clonePageT` to the code; the *resource* field (`PageOK` over the nearest dictionary) follows from the invariant.
+    Premise `= .ok out`: silent about refused (cyclic / dangling) pages. When the import of a page succeeds after
     any history, the new page's own /MediaBox is the entry of the nearest node (page, parent, grand-parent, …)
     that has one, its /CropBox likewise and the media box if no node has one, its /TrimBox the page's own; its
     resources are the pruned copy (`PageOK`: per category *and* name — the same name in two categories is two
@@ -212,7 +260,10 @@ theorem nearest_is_first {α : Type} (c : List (Option α)) (v : α) (h : neares
   nearest_spec c v h
 
 /-- **The other entry point** (`from_page`): same effective boxes; the effective resource dictionary whole
-    (minus the category the typed `Resources` has no field for). -/
+    (minus the category the typed `Resources` has no field for). This reads the definition of `fromPageT` back: it is
+    a statement about the *model*, made in terms of `nearest`; that `PageBuilder::from_page` behaves like `fromPageT`
+    is the correspondence stream `c20.frompage` / `c20.frompage.exhaustive`, not a theorem. The independent
+    characterisation of the chosen entries is `from_page_boxes_first_on_the_way_up`. -/
 theorem from_page_attributes (pt : PageT) (out : FromOut) (hok : fromPageT pt = .ok out) :
     nearest pt.media = some out.media ∧ out.crop = (nearest pt.crop).getD out.media ∧ out.trim = pt.trim ∧
     out.rotate = pt.ownRotate ∧ ∃ r, nearest pt.resChain = some r ∧ out.res = typedRes r := by
@@ -227,7 +278,50 @@ theorem from_page_attributes (pt : PageT) (out : FromOut) (hok : fromPageT pt = 
       subst hok
       exact ⟨rfl, rfl, rfl, rfl, r, rfl, rfl⟩
 
-/-- `clone_page` never panics on a page of the tree either. -/
+/-- **Boxes, stated without `nearest`**: the /MediaBox of a successfully imported page is the entry of some node `i`
+    steps up (0 = the page itself) and no node below `i` has a /MediaBox; the /CropBox is such an entry of the
+    /CropBox chain, or — when *no* node on the way up has a /CropBox — the media box. -/
+theorem tree_page_boxes_first_on_the_way_up (src : Src) (f n : Nat) (before : List PageT) (pt : PageT) (out : PageOutT)
+    (hok : (clonePageT f src pt (afterT f src n before)).1 = .ok out) :
+    (∃ i : Nat, pt.media[i]? = some (some out.media) ∧ ∀ j : Nat, j < i → pt.media[j]? = some none) ∧
+    ((∃ i : Nat, pt.crop[i]? = some (some out.crop) ∧ ∀ j : Nat, j < i → pt.crop[j]? = some none) ∨
+     (nearest pt.crop = none ∧ out.crop = out.media)) := by
+  have h := tree_page_attributes src f n before pt out hok
+  refine ⟨nearest_spec _ _ h.media, ?_⟩
+  cases hc : nearest pt.crop with
+  | none => right; exact ⟨rfl, by rw [h.crop, hc]; rfl⟩
+  | some c =>
+    left
+    have : out.crop = c := by rw [h.crop, hc]; rfl
+    rw [this]
+    exact nearest_spec _ _ hc
+
+/-- `nearest c = none` means what it should: no node on the way up has the entry. -/
+theorem nearest_none_iff {α : Type} (c : List (Option α)) : nearest c = none ↔ ∀ x ∈ c, x = none := by
+  induction c with
+  | nil => simp [nearest]
+  | cons x c ih =>
+    cases x with
+    | some v => simp [nearest]
+    | none => simp [nearest, ih]
+
+/-- the same for `from_page` -/
+theorem from_page_boxes_first_on_the_way_up (pt : PageT) (out : FromOut) (hok : fromPageT pt = .ok out) :
+    (∃ i : Nat, pt.media[i]? = some (some out.media) ∧ ∀ j : Nat, j < i → pt.media[j]? = some none) ∧
+    ((∃ i : Nat, pt.crop[i]? = some (some out.crop) ∧ ∀ j : Nat, j < i → pt.crop[j]? = some none) ∨
+     ((∀ x ∈ pt.crop, x = none) ∧ out.crop = out.media)) := by
+  obtain ⟨hm, hcrop, _, _, _⟩ := from_page_attributes pt out hok
+  refine ⟨nearest_spec _ _ hm, ?_⟩
+  cases hc : nearest pt.crop with
+  | none => right; exact ⟨(nearest_none_iff _).mp hc, by rw [hcrop, hc]; rfl⟩
+  | some c =>
+    left
+    have : out.crop = c := by rw [hcrop, hc]; rfl
+    rw [this]
+    exact nearest_spec _ _ hc
+
+/-- `clone_page` on a page of the tree: no `.panic` outcome — by construction of `clonePageT`, see
+    `import_never_panics`. -/
 theorem tree_import_never_panics (src : Src) (f : Nat) (pt : PageT) (st : St) : (clonePageT f src pt st).1 ≠ .panic :=
   clonePageT_ne_panic src f pt st
 
@@ -286,6 +380,37 @@ example : (cloneRef 5 (srcOf [(1, ⟨7, [⟨.prim, 1⟩], [⟨.prim, 1⟩]⟩)])
 /-- a two-object cycle reached below a shared object: reported as well, and the state stays clean -/
 example : cloneRef 9 (srcOf [(1, ⟨1, [⟨.prim, 2⟩], []⟩), (2, ⟨2, [⟨.prim, 3⟩, ⟨.prim, 1⟩], []⟩), (3, ⟨3, [], []⟩)])
     ⟨.prim, 1⟩ (St.init 0) = (.err, ⟨[(3, 0)], [], [], 1, [⟨0, 3, []⟩]⟩) := by decide
+
+/-- **What the repaired importer does with a cyclic page**: an object whose references (for the kind of edge it is
+    reached by) lead straight back to itself is refused with `.err` — for every amount of fuel ≥ 2, whatever else the
+    importer has done before, as long as the object has no copy yet. (The general statement "a reachable cycle ⇒
+    `.err`" is not proved; `import_terminates` gives "not `.oof`" and `import_never_panics` "not `.panic`" on every
+    finite source, the examples below show `.err` on longer cycles.) Consequently every theorem with premise
+    `… = .ok out` is silent about such pages; see the header for why that is within the property. -/
+theorem cyclic_page_is_rejected (src : Src) (r : Nat) (node : Node) (k : Kind) (f : Nat) (st : St)
+    (hs : src r = some node) (hk : ∃ k' rest, node.kids k = ⟨k', r⟩ :: rest) (hl : lk st.map r = none)
+    (hp : r ∉ st.pending) : (cloneRef (f + 2) src ⟨k, r⟩ st).1 = .err := by
+  obtain ⟨k', rest, hkids⟩ := hk
+  have inner : cloneRef (f + 1) src ⟨k', r⟩ (st.push r) = (.err, st.push r) := by
+    have hin : r ∈ (st.push r).pending := by show r ∈ r :: st.pending; simp
+    cases k' <;> simp [cloneRef, St.push, hl] <;> (try simp [St.push] at hin) <;> simp [hl]
+  rw [cloneRef.eq_2]
+  simp only [hl, hp, if_false, hs, hkids, mapSt, inner]
+
+/-- **Sharing and a cycle elsewhere.** Objects 1–4 form a shared acyclic part (1 → 3, 2 → 3 and 4, 3 → 4), objects
+    5 ⇄ 6 a cycle. Page A (ExtGState → 1, font → 2) imports; page C (font → 5) is refused and leaves the state as it
+    was; page A′ (font → 2 again, page entry → 3) imports after the refusal, re-using the copies: four objects in
+    all, one per source object reached, none for 5 and 6. -/
+theorem acyclic_page_beside_a_cycle_imports :
+    clonePages 7
+      (srcOf [(1, ⟨11, [⟨.prim, 3⟩], []⟩), (2, ⟨12, [⟨.prim, 3⟩, ⟨.prim, 4⟩], []⟩), (3, ⟨13, [⟨.prim, 4⟩], []⟩),
+              (4, ⟨14, [], []⟩), (5, ⟨15, [⟨.prim, 6⟩], []⟩), (6, ⟨16, [⟨.prim, 4⟩, ⟨.prim, 5⟩], []⟩)])
+      [⟨[.use .gs 1, .use .font 2], [((.gs, 1), ⟨100, [⟨.prim, 1⟩]⟩), ((.font, 2), ⟨0, [⟨.prim, 2⟩]⟩)], []⟩,
+       ⟨[.use .font 9], [((.font, 9), ⟨0, [⟨.prim, 5⟩]⟩)], []⟩,
+       ⟨[.use .font 2], [((.font, 2), ⟨0, [⟨.prim, 2⟩]⟩)], [⟨.prim, 3⟩]⟩] (St.init 0) =
+    ([.ok ⟨[((.font, 2), (0, [3])), ((.gs, 1), (100, [2]))], []⟩, .err, .ok ⟨[((.font, 2), (0, [3]))], [1]⟩],
+     ⟨[(2, 3), (1, 2), (3, 1), (4, 0)], [], [], 4,
+      [⟨3, 12, [1, 0]⟩, ⟨2, 11, [1]⟩, ⟨1, 13, [0]⟩, ⟨0, 14, []⟩]⟩) := by decide
 
 /-- **D46** (fixed). Before the repair `clone_rcref` on an object already copied through a plain reference
     hit `rcrefs.get(..).unwrap()` on `None`. -/
